@@ -495,6 +495,10 @@ class SymEval:
             info["iter"] = it
             seq = self.concrete_seq(it)
             do_unroll = self.unroll(s, seq) if callable(self.unroll) else (self.unroll and seq is not None and len(seq) <= self.unroll)
+            if seq is not None and 0 < len(seq) <= 8 and _is_search_loop(s) and (do_unroll or not callable(self.unroll)):
+                # `for x in CONST: [...]; if test(x): ...; break` (+ else): an if / elif chain over the constant elements
+                info["unrolled"] = len(seq)
+                return self._search_chain(s, list(seq), 0, st)
             if seq is not None and do_unroll and not _has_break_continue(s.body):
                 info["unrolled"] = len(seq)
                 for v in seq:
@@ -576,6 +580,28 @@ class SymEval:
             out.dead = "return"
         return out
 
+    def _search_chain(self, s, seq, k, st: State) -> State:
+        if k == len(seq):
+            return self.block(s.orelse, st) if s.orelse else st
+        self.assign(s.target, self.lift(seq[k]), st, s)
+        st = self.block(s.body[:-1], st)
+        if st.dead:
+            return st
+        last = s.body[-1]
+        c = self.cond(self.expr(last.test, st))
+        b = self.truth(c)
+        if b is True:
+            return self.block(last.body[:-1], st)
+        if b is False:
+            return self._search_chain(s, seq, k + 1, st)
+        s1 = st.copy()
+        s1.assume(c, True)
+        s2 = st.copy()
+        s2.assume(c, False)
+        s1 = self.block(last.body[:-1], s1)
+        s2 = self._search_chain(s, seq, k + 1, s2)
+        return self.merge(c, s1, s2, st.dnf)
+
     def try_(self, s, st: State) -> State:
         tid = f"{self._lid_prefix}T{s.lineno}"
         pre = st.copy()
@@ -628,6 +654,11 @@ class SymEval:
             return ("func", f"{v.module}.{v.name}") if v.kind == "function" else ("class", f"{v.module}.{v.name}")
         if isinstance(v, (dict, list, set)):
             return ("gval", _Box(v))
+        if isinstance(v, tuple):
+            try:
+                hash(v)
+            except TypeError:
+                return ("gval", _Box(v))  # a tuple holding lists / dicts: boxed, so that terms stay hashable
         return const(v)
 
     def truth(self, c):
@@ -645,7 +676,7 @@ class SymEval:
     def concrete_seq(self, t):
         if is_const(t) and isinstance(t[1], (range, tuple, bytes, str)):
             return list(t[1])
-        if t[0] == "gval" and isinstance(t[1].v, (list, dict)):
+        if t[0] == "gval" and isinstance(t[1].v, (list, dict, tuple)):
             return list(t[1].v)
         if t[0] in ("tuple", "list") and all(is_const(x) for x in t[1]):
             return [x[1] for x in t[1]]
@@ -777,7 +808,19 @@ class SymEval:
                     if v.format_spec is not None:
                         sp = self.expr(v.format_spec, st)
                         spec = sp[1] if is_const(sp) else ("dyn", sp)
-                    parts.append(("fmt", val, spec, v.conversion))
+                    if val[0] == "fstr" and spec == "" and v.conversion in (-1, ord("s")):
+                        parts.extend(val[1])  # an f-string interpolated unformatted into another: splice its parts
+                    elif is_const(val) and isinstance(val[1], str) and spec == "" and v.conversion in (-1, ord("s")):
+                        parts.append(val)
+                    else:
+                        parts.append(("fmt", val, spec, v.conversion))
+            merged = []
+            for p_ in parts:  # adjacent literal pieces are one literal
+                if merged and is_const(p_) and is_const(merged[-1]) and isinstance(p_[1], str) and isinstance(merged[-1][1], str):
+                    merged[-1] = const(merged[-1][1] + p_[1])
+                else:
+                    merged.append(p_)
+            parts = merged
             if all(is_const(p) for p in parts):
                 return const("".join(str(p[1]) for p in parts))
             if all(is_const(p) or (p[0] == "fmt" and is_const(p[1]) and isinstance(p[2], str) and p[3] == -1) for p in parts):
@@ -873,6 +916,8 @@ class SymEval:
                 if is_const(x) and isinstance(x[1], str) and y[0] == "bin" and y[1] == "+" and is_const(y[2]) and isinstance(y[2][1], str):
                     if not x[1].startswith(y[2][1]) or (y[3][0] == "fstr" and y[3][1] and is_const(y[3][1][0]) and not x[1][len(y[2][1]):].startswith(str(y[3][1][0][1]))):
                         return const(sym == "!=")
+        if sym in ("in", "not in") and is_const(b) and isinstance(b[1], (tuple, list, set, frozenset)) and len(b[1]) == 1:
+            return self.cmp("==" if sym == "in" else "!=", a, self.lift(next(iter(b[1]))))  # membership in a one-element constant
         if sym in ("in", "not in") and is_const(a) and b[0] == "gval":
             try:
                 r = a[1] in b[1].v
@@ -891,6 +936,12 @@ class SymEval:
         else:
             recv = None
             f = self.expr(fn, st)
+            if f[0] == "call" and f[2] == ("builtin", "getattr") and len(f[3]) == 2 and f[3][0] == ("self",) and is_const(f[3][1]) and isinstance(f[3][1][1], str) and not f[4]:
+                # getattr(self, "name")(...) is self.name(...)
+                if self.effects and self.effects[-1].term is f:
+                    self.effects.pop()
+                recv = ("self",)
+                f = ("attr", recv, f[3][1][1])
         args = []
         for a in e.args:
             args.append(self.expr(a, st))
@@ -1024,7 +1075,10 @@ def _inline_call_impl(self, callee, f, args, kwargs, st):
                 env[k] = v
     saved = (self.func, self.modenv, self.selfname, self._lid_prefix)
     self.func, self.modenv, self.selfname = callee, callee_env, (params[0] if is_method else None)
-    self._lid_prefix = saved[3] + callee.name + "."
+    cnt = self.__dict__.setdefault("_inline_counts", {})
+    cnt[callee.qualname] = cnt.get(callee.qualname, 0) + 1
+    # loop / try ids of an inlined body are prefixed by the callee's name; a second inlining of the same helper gets its own ids
+    self._lid_prefix = saved[3] + callee.name + (f"#{cnt[callee.qualname]}" if cnt[callee.qualname] > 1 else "") + "."
     rets = []
     self._inline_stack.append((callee, rets))
     sub = State(env, st.dnf, None)
@@ -1142,6 +1196,16 @@ def _calls_self_methods(stmts, selfname) -> bool:
                 if isinstance(f, ast.Name) and f.id == "setattr":
                     return True
     return False
+
+
+def _is_search_loop(s) -> bool:
+    """for-loop whose body ends with `if <test>: ...; break` (no else branch), with no other break/continue in the body."""
+    if not s.body or not isinstance(s.body[-1], ast.If) or s.body[-1].orelse:
+        return False
+    last = s.body[-1]
+    if not last.body or not isinstance(last.body[-1], ast.Break):
+        return False
+    return not _has_break_continue(s.body[:-1]) and not _has_break_continue(last.body[:-1])
 
 
 def _has_break_continue(stmts) -> bool:
